@@ -562,10 +562,12 @@ impl Property for C02 {
     fn gen(&self, seed: u64, tier: Tier) -> Vec<Scenario> {
         let base = if seed % 4 == 0 {
             GenParams::wide()
+        } else if seed % 4 == 1 {
+            GenParams::dense()
         } else {
             GenParams::conflict_rich()
         };
-        let params = swarm(seed, base, tier);
+        let params = if seed % 4 == 1 { base } else { swarm(seed, base, tier) };
         let mut sc = std_scenario(seed, &params, None);
         maybe_forest(seed, &mut sc, &params, 40, tier);
         maybe_warm_or_deep(seed, &mut sc, &params);
@@ -1146,11 +1148,39 @@ impl Property for C06 {
         base.max_root_reqs = 5;
         let mut sc = std_scenario(seed, &swarm(seed, base, tier), Some(false));
         maybe_cyclic_conflict(seed, &mut sc, 40);
+        let mut fr = Rng::stream(seed, "c06-families");
+        if fr.chance(1, 150) {
+            // a conflict of several hundred clauses
+            let (w, p) = crate::gen::large_conflict(&mut fr);
+            sc.world = w;
+            sc.solves.truncate(1);
+            sc.solves[0].problem = p;
+        }
         sc.runtime = RuntimeKind::NowOrNever;
         sc.render = true;
         let mut r = Rng::stream(seed, "salts");
         let k = if tier == Tier::Quick { 3 } else { 7 };
         sc.extra_salts = (0..k).map(|_| r.next_u64()).collect();
+        if fr.chance(1, 40) && sc.world.n_solvables() <= 48 {
+            // "repeated runs" on one long-lived solver: the same problem again and again. Problems whose search learns
+            // clauses are preferred (state that depends on the number of conflicts a solver has seen in its life), long
+            // enough for a few thousand conflicts in total.
+            let mut probe = sc.clone();
+            probe.capture_state = true;
+            probe.render = false;
+            probe.extra_salts.clear();
+            let learnt = execute(&probe)
+                .dumps
+                .first()
+                .and_then(|d| d.as_ref())
+                .map(|d| d.clauses.iter().filter(|c| matches!(c.kind, resolvo::verif_hooks::DumpKind::Learnt(_))).count())
+                .unwrap_or(0);
+            if learnt >= 2 || fr.chance(1, 10) {
+                sc.repeat = if learnt >= 2 { (2600 / learnt + fr.range(50, 400)).min(3000) as u32 } else { fr.range(300, 1500) as u32 };
+                sc.render = false;
+                sc.extra_salts.truncate(1);
+            }
+        }
         vec![sc]
     }
     fn judge(&self, sc: &Scenario) -> Verdict {
@@ -1178,9 +1208,35 @@ impl Property for C06 {
                 break;
             }
         }
+        // "repeated runs" on one solver: once a repetition of the problem needs nothing from the provider any more, the
+        // solver's persistent state (its cache) has stopped changing, and every further repetition is a function of
+        // the same inputs - it must give the same output
+        if sc.repeat > 1 && v.violation.is_none() {
+            *v.probes.entry("long_lived_solver_over_100_calls").or_insert(0) += 1;
+            let mut quiet: Vec<bool> = Vec::new();
+            let mut cur_calls = 0u64;
+            for e in &rec.log {
+                match e {
+                    Ev::SolveBegin(_) => cur_calls = 0,
+                    Ev::Start { .. } => cur_calls += 1,
+                    Ev::SolveEnd(_) => quiet.push(cur_calls == 0),
+                    _ => {}
+                }
+            }
+            let n = sc.solves.len();
+            for i in n..rec.outcomes.len().min(quiet.len()) {
+                if quiet[i] && quiet[i - n] && base[i] != base[i - n] {
+                    v.violate(
+                        "repeated-run-divergence",
+                        format!("call #{i} on the same solver returns {:?}, call #{} of the identical problem returned {:?}; neither needed the provider", base[i], i - n, base[i - n]),
+                    );
+                    break;
+                }
+            }
+        }
         // "repeated runs ... independent of allocation addresses": the same salt again, with a different heap
         // layout (ballast allocations of varying size are kept alive across the repetitions)
-        if v.violation.is_none() {
+        if v.violation.is_none() && sc.repeat <= 1 {
             let mut ballast: Vec<Vec<u8>> = Vec::new();
             for rep in 0..6usize {
                 ballast.push(vec![0u8; 24 + 40 * rep]);
@@ -2307,6 +2363,18 @@ impl Property for C14 {
         let hard = hard_only(p);
         let o = &rec.outcomes[0];
         if o.is_crash() {
+            // "never turns a solvable problem into an error": a crash that the hard problem alone does not show and
+            // that happens although the hard problem has a solution is the soft list's doing
+            let mut alone = sc.clone();
+            alone.solves[0].problem.soft.clear();
+            let r0 = execute(&alone);
+            if matches!(r0.outcomes[0], Outcome::Ok(_)) {
+                if let Some((c, d)) = crash_class(o) {
+                    v.evaluated = true;
+                    v.violate(format!("soft-turns-{c}"), format!("the hard problem alone is solved; with the soft requirements: {d}"));
+                    return v;
+                }
+            }
             v.aborted_other = true;
             return v;
         }
